@@ -810,7 +810,8 @@ def run(tier, replay=None):
       'dead_dialect_entries': [list(c) for c in (dead or [])],
       'instantiation_cases': n_tie,
       'instantiation_mismatches': (bad or [])[:10],
-      'programs': {'generated': n_prog, 'malformed': n_mal, 'fixed': len(fixed)},
+      'programs': n_prog + n_mal + len(fixed),
+      'programs_by_kind': {'generated': n_prog, 'malformed': n_mal, 'fixed': len(fixed)},
       'compile_status': status_count,
       'compiled_ok': n_ok,
       'statements_judged': len(cases),
